@@ -24,6 +24,7 @@ import (
 	"errors"
 	"os"
 	"runtime/debug"
+	"strings"
 	"time"
 
 	"github.com/foxcpp/go-mtasts"
@@ -430,13 +431,21 @@ func (c *daneDelivery) discoverTLSA(ctx context.Context, mx string) ([]dns.TLSA,
 		// But if it is CNAME'd then we may not want to skip it and actually
 		// consider initial name since it may be signed. To confirm the
 		// initial name is signed, do CNAME lookup.
-		cnameAD, _, err := c.c.extResolver.AuthLookupCNAME(ctx, mx)
+		cnameAD, target, err := c.c.extResolver.AuthLookupCNAME(ctx, mx)
 		if err != nil {
 			return nil, err
 		}
 		if !cnameAD {
 			c.c.log.Debugln("skipping DANE for", mx, "due to non-authenticated CNAME record")
 			return nil, nil
+		}
+
+		// The name the aliases lead to is a TLSA base domain only if every
+		// alias on the way is signed (RFC 7672 Section 2.2.2), otherwise it is
+		// the choice of whoever can forge the unsigned one.
+		if !c.aliasesSecure(ctx, target, rname) {
+			c.c.log.Debugln("ignoring", rname, "for DANE, reached via non-authenticated CNAME record")
+			rname = mx
 		}
 	}
 
@@ -470,6 +479,22 @@ func (c *daneDelivery) discoverTLSA(ctx context.Context, mx string) ([]dns.TLSA,
 
 	c.c.log.Debugln("using", len(recs), "DANE records at original name to authenticate", mx)
 	return recs, nil
+}
+
+// aliasesSecure reports whether the CNAME records leading from name to rname
+// are all DNSSEC-authenticated.
+func (c *daneDelivery) aliasesSecure(ctx context.Context, name, rname string) bool {
+	for i := 0; i < 16 && name != ""; i++ {
+		if strings.EqualFold(dns.FQDN(name), dns.FQDN(rname)) {
+			return true
+		}
+		ad, next, err := c.c.extResolver.AuthLookupCNAME(ctx, name)
+		if err != nil || !ad {
+			return false
+		}
+		name = next
+	}
+	return false
 }
 
 func (c *daneDelivery) PrepareConn(ctx context.Context, mx string) {
